@@ -195,9 +195,21 @@ fn bytes_case(id: u64, len: usize, pat: &str) -> serde_json::Value {
     let (rtx, rrx) = crossbeam_channel::bounded(1);
     let h = std::thread::spawn(move || {
         mark(&format!("recv {}", id));
-        let r = rx.recv();
+        // the two receive variants of the bytes receiver in turn
+        let r = match id % 2 {
+            0 => rx.recv().map_err(|e| format!("{:?}", e)),
+            _ => {
+                let t0 = std::time::Instant::now();
+                loop {
+                    match rx.try_recv() {
+                        Err(ipc::TryRecvError::Empty) if t0.elapsed().as_secs() < watchdog_secs() => std::thread::yield_now(),
+                        other => break other.map_err(|e| format!("{:?}", e)),
+                    }
+                }
+            },
+        };
         mark(&format!("endrecv {}", id));
-        let _ = rtx.send(r.map_err(|e| format!("{:?}", e)));
+        let _ = rtx.send(r);
         rx
     });
     mark(&format!("send {}", id));
